@@ -4,14 +4,11 @@ import json, os
 V = os.path.dirname(os.path.dirname(os.path.abspath(__file__)))
 props = [json.loads(l) for l in open(os.path.join(V, "properties.jsonl"))]
 
-CLAIMED = {
- "C17": dict(
-   category="proof",
-   text="Lean 4 theorems over an executable model of shellparse.Parse (round trip of the documented double- and single-quote forms for every argument list), with the model tied to the working tree by a differential run of the real Go functions (shellparse, safesplit, buildtags, env templates) against the compiled model on generated valid and malformed inputs; the specification (split(join(args)) = args) is judged on the real code's output.",
-   design="DESIGN.md §4 C17",
-   note="Trusted: Lean kernel (axioms propext/Classical.choice/Quot.sound only), the hand-written model's tie is differential testing (generator in checks/c17.py), go/build evaluates tag expressions (not llgo code). safesplit round-trip theorem holds only under the explicit WF predicate; three non-WF classes are listed known findings.",
-   technique="Lean 4 proof over hand-written model + differential correspondence with the Go code"),
-}
+CLAIMED = {}
+fd = os.path.join(V, "checks", "manifest")
+for fn in sorted(os.listdir(fd)):
+    if fn.endswith(".json"):
+        CLAIMED[fn[:-5]] = json.load(open(os.path.join(fd, fn)))
 
 checks = []
 for p in props:
